@@ -2443,6 +2443,9 @@ class CreateQueryBuilder:
         if not isinstance(query_builder, QueryBuilder):
             raise TypeError("Expected 'item' to be instance of QueryBuilder")
 
+        if self._as_select is not None:
+            raise AttributeError("'Query' object already has attribute as_select")
+
         self._as_select = query_builder
 
     @builder
